@@ -3,6 +3,7 @@
 //! Portable JH with optimizations for x86-64
 
 #![cfg_attr(not(feature = "std"), no_std)]
+#![allow(unexpected_cfgs)] // cfg(cryptocorrosion_verif): verification hooks
 
 pub extern crate digest;
 #[macro_use]
@@ -38,6 +39,15 @@ macro_rules! define_hasher {
                     .field("buffer", &"(BlockBuffer<U64>)")
                     .field("datalen", &self.datalen)
                     .finish()
+            }
+        }
+
+        #[cfg(cryptocorrosion_verif)]
+        impl $name {
+            /// Verification hook: overwrite the 1024-bit chaining value and the byte counter (the block buffer is left as is).
+            pub fn verif_set_state(&mut self, state: [u8; 128], datalen: usize) {
+                self.state = Compressor::new(state);
+                self.datalen = datalen;
             }
         }
 
